@@ -76,7 +76,16 @@ func (x *saveX) fsCall(e ast.Expr) (op string, err error) {
 		if arg(0) != "filepath.Dir("+path+")" {
 			return "", fmt.Errorf("os.CreateTemp not in the directory of %s: %s", path, x.p.Src(c))
 		}
+		// temp-name freshness: only a pattern with `*` makes os.CreateTemp pick a name that is not in the directory
+		if !strings.Contains(arg(1), "*") {
+			return "", fmt.Errorf("os.CreateTemp pattern without `*`: %s", x.p.Src(c))
+		}
 		return "createTemp", nil
+	case name == "os.OpenFile" && len(c.Args) == 3 && strings.HasPrefix(strings.ReplaceAll(arg(0), " ", ""), path+"+\"") &&
+		strings.Contains(arg(1), "os.O_EXCL") && strings.Contains(arg(1), "os.O_CREATE") && strings.Contains(arg(1), "os.O_WRONLY") &&
+		!strings.Contains(arg(1), "O_TRUNC") && !strings.Contains(arg(1), "O_APPEND"):
+		// one fixed temporary name next to the store, exclusive create
+		return "createExcl", nil
 	case name == "os.Rename" && x.tmp != "" && arg(0) == x.tmp+".Name()" && arg(1) == path:
 		return "renameTmpToTarget", nil
 	case name == "os.Remove" && x.tmp != "" && arg(0) == x.tmp+".Name()":
@@ -147,11 +156,11 @@ func (x *saveX) stmt(s ast.Stmt) error {
 				x.prevPu = true
 				return nil
 			}
-			if name == "os.CreateTemp" {
+			if name == "os.CreateTemp" || name == "os.OpenFile" {
 				if id, ok := a.Lhs[0].(*ast.Ident); ok && len(a.Lhs) == 2 {
 					x.tmp = id.Name
 				} else {
-					return fmt.Errorf("unrecognised use of os.CreateTemp: %s", src)
+					return fmt.Errorf("unrecognised use of %s: %s", name, src)
 				}
 			}
 			op, err := x.fsCall(call)
